@@ -7,15 +7,16 @@
    exportedServicesForPeerTxn.  Every `range` over a Go map is an arbitrary permutation
    ([shuffles_ok sh]); all theorems hold for every such iteration order. *)
 From Verif Require Import Base.Prelude Peering.Model Peering.Lemmas Peering.Verbs Peering.Frame Peering.Prune
-     Peering.Export Peering.Phase1 Peering.Snapshot Peering.MirrorTop Peering.SamePeer Peering.Topo
+     Peering.Export Peering.Phase1 Peering.Snapshot Peering.MirrorTop Peering.SamePeer
      Peering.Refute Peering.Proofs Run.C17 Peering.Order.
 Local Open Scope string_scope.
 
 (* ================================================================== frame *)
 
 (* An event of peer p leaves the node, service and check rows of every other peer and of the
-   local cluster (q = "") exactly as they were — same rows, same order — whatever the prior
-   state, whatever the snapshot (coherent or not), whether or not the handler fails. *)
+   local cluster (q = "", which includes the mesh-topology table) exactly as they were — same
+   rows, same order — whatever the prior state, whatever the snapshot (coherent or not, naming
+   upstreams or not), whether or not the handler fails. *)
 Theorem C17_frame : forall sh c e q,
   shuffles_ok sh -> ev_peer e <> q -> same_rows q c (h_cat (handle sh c e)).
 Proof. exact handle_frame. Qed.
@@ -41,23 +42,12 @@ Theorem C17_calls_determine_store : forall sh c e,
   shuffles_ok sh -> apply_ops (rev (h_ops (handle sh c e))) c = h_cat (handle sh c e).
 Proof. exact handle_replay. Qed.
 
-(* The mesh-topology table has no peer in its key (updateMeshTopology: "TODO(peering): make
-   this peering aware"): read on that table the frame property is FALSE ... *)
-Theorem C17_frame_topology_refuted :
-  ~ (forall sh c e, shuffles_ok sh -> ev_peer e <> "" -> topo (h_cat (handle sh c e)) = topo c).
-Proof. exact topo_frame_refuted. Qed.
-
-(* ... and holds exactly when upstreams are not involved: no received service names
-   upstreams and no stored row of the peer does (a conforming exporter never sends any) *)
-Theorem C17_frame_topology_partial : forall sh c e,
-  shuffles_ok sh ->
-  quiet (ev_peer e) c ->
-  match e with
-  | EvUpsert _ _ export => forall i, In i export -> s_ups (i_svc i) = []
-  | EvList _ _ => True
-  end ->
-  topo (h_cat (handle sh c e)) = topo c.
-Proof. exact topo_frame. Qed.
+(* The mesh-topology table has no peer in its key and belongs to the local cluster: it is part
+   of [same_rows ""].  Spelled out: no event of a peer changes it (updateMeshTopology returns
+   at once for an imported instance, cleanupMeshTopology likewise). *)
+Theorem C17_frame_topology : forall sh c e,
+  shuffles_ok sh -> ev_peer e <> "" -> topo (h_cat (handle sh c e)) = topo c.
+Proof. exact handle_frame_topo. Qed.
 
 (* ================================================================== prune *)
 
@@ -208,8 +198,7 @@ Print Assumptions C17_frame_history.
 Print Assumptions C17_ops_carry_peer.
 Print Assumptions C17_keys_contain_peer.
 Print Assumptions C17_calls_determine_store.
-Print Assumptions C17_frame_topology_refuted.
-Print Assumptions C17_frame_topology_partial.
+Print Assumptions C17_frame_topology.
 Print Assumptions C17_prune.
 Print Assumptions C17_mirror_refuted_node_id_moves.
 Print Assumptions C17_mirror_refuted_check_changes_owner.
